@@ -687,6 +687,28 @@ func runTanSync(e *Engine, r *Report) {
 		}
 	})
 	r.check(okS, "PAIR-tan-sync", "tan db.sync calls File.Sync", e.pos(dbSync.Pos()), "sync is an fsync of the active log file", "db.sync no longer calls File.Sync")
+	// ... on every path: no success return of db.sync skips the fsync (an elided "redundant" fsync is
+	// only sound with a watermark that is reset at every log rollover; there is none), and the file
+	// it syncs is the active log file
+	{
+		isFsync := e.throughHelpers(func(s ssa.CallInstruction) bool {
+			return s.Common().IsInvoke() && s.Common().Method.Name() == "Sync"
+		})
+		res := e.findPath(dbSync, nil, func(in ssa.Instruction) bool { return e.isSuccessReturn(in) }, isFsync, nil)
+		r.check(!res.Found, "PAIR-tan-sync", "tan db.sync fsyncs on every successful path", e.pos(dbSync.Pos()), "no success return without File.Sync",
+			"db.sync can return success without having called File.Sync: saves acknowledged through that path are not durable", res.Trace(e)...)
+		if lf := e.Field("internal/tan", "db", "mu"); lf != nil {
+			okF := true
+			forEachCall(dbSync, func(s ssa.CallInstruction) {
+				if s.Common().IsInvoke() && s.Common().Method.Name() == "Sync" {
+					if !e.dependsOn(s.Common().Value, fieldNameV("logFile"), 0) {
+						okF = false
+					}
+				}
+			})
+			r.check(okF, "PAIR-tan-sync", "tan db.sync syncs the active log file", e.pos(dbSync.Pos()), "File.Sync on db.mu.logFile", "db.sync calls Sync on something other than the active log file")
+		}
+	}
 	// write's sync flag depends on entries, snapshot, term and vote
 	if wr := e.Func("(*internal/tan.db).write"); wr != nil {
 		ets := e.Field("raftpb", "Update", "EntriesToSave")
